@@ -83,15 +83,18 @@ def run_spin(fkind, d, timeout, stop_at, extra, selectable, preset, second):
         res_out = ("returned", 7) if fkind in (0, 2) else ("ValueError",)
         first = min(r, timeout, s)
         allowed = set()
+        # Within one virtual instant the timeout call (scheduled before the function ran) fires before anything the
+        # function scheduled, and a stop request arrives after the delayed calls of that instant. Hence:
+        # "TimeoutError if the Deferred has not fired when timeout elapses" (a tie is a timeout), otherwise the
+        # function's own result unless the reactor was stopped strictly first.
         if r == 0:
             allowed.add(res_out)          # synchronous / already fired results precede every scheduled call
+        elif timeout == first:
+            allowed.add(("TimeoutError",))
+        elif r == first:
+            allowed.add(res_out)
         else:
-            if r == first:
-                allowed.add(res_out)
-            if timeout == first:
-                allowed.add(("TimeoutError",))
-            if s == first:
-                allowed.add(("NoResultError",))
+            allowed.add(("NoResultError",))
         if outcome not in allowed:
             problems.append("run() gave %r, expected one of %r (result at %s, timeout at %s, stop at %s)" % (
                 outcome, sorted(allowed), r, timeout, s))
@@ -199,7 +202,7 @@ def h_reentry(x: int) -> bool:
 HARNESSES = [
     Harness("spin", h_spin, lambda tier: [({"fkind": f, "timeout": t}, 900) for f in range(5) for t in (1, 2, 3)],
             bounds={"quick": "function in {returns, raises, Deferred fires / fails after d in 0..3, never fires} x timeout 1..3 x stop request "
-                             "at instant 0..3 or never (all orders incl. ties of fire/timeout/stop) x extra delayed call {none, fires "
+                             "at instant 0..3 or never (all orders of fire/timeout/stop; ties: the timeout wins over a result due at the same instant, a result wins over a stop request arriving at the same instant) x extra delayed call {none, fires "
                              "during the run, left over} x selectable registered or not x pre-installed SIGINT/SIGTERM/SIGCHLD handlers "
                              "{default, ignore, Python function} x second run() {none, after clear_junk(), without clearing}; virtual-time reactor"},
             rule="every path non-trivial",
